@@ -73,7 +73,7 @@ def gen(tier, rng, scale):
             if rng.chance(1, 2):
                 ops.append(["N", len(threads) - 1, "tn%02d" % rng.below(100)])
         counters = 0
-        frames_pool = ["l" + rng.choice(["foo", "bar", "baz", "qux", "0x100"]) for _ in range(3)]
+        frames_pool = ["l" + rng.choice(["foo", "bar", "baz", "qux", "0x100", "~"]) for _ in range(3)]      # "~" = the empty string
         for p in range(nproc):
             base = 0x10000 * (p + 1)
             for _ in range(4):
@@ -149,7 +149,7 @@ def gen(tier, rng, scale):
                 th = rng.below(len(threads))
                 t = times.get(th, 100) + rng.range(1, 50)
                 fr = pick_frames(th, 0, 4) if rng.chance(1, 2) else []
-                ops.append(["K", th, t, rng.choice(["mk", "foo", "gc"]), rng.choice(["txt", "foo", "x"])] + fr)
+                ops.append(["K", th, t, rng.choice(["mk", "foo", "gc", "~"]), rng.choice(["txt", "foo", "x", "~"])] + fr)
             elif r < 72 and threads and (registered or pending_g):
                 if pending_g and (not registered or rng.chance(1, 2)):
                     g = pending_g.pop(0)           # a type registered late, between markers of other types
@@ -160,9 +160,9 @@ def gen(tier, rng, scale):
                 tyno = [o[1] for o in ops if o[0] == "G"].index("Ty%d" % g)
                 th = rng.below(len(threads))
                 t = times.get(th, 100) + rng.range(1, 50)
-                vals = [str(rng.below(1000)) if k == "n" else rng.choice(["foo", "bar", "txt", "v%d" % rng.below(5), "mk"]) for k in gkinds[g]]
+                vals = [str(rng.below(1000)) if k == "n" else rng.choice(["foo", "bar", "txt", "v%d" % rng.below(5), "mk", "~"]) for k in gkinds[g]]
                 fr = pick_frames(th, 0, 4) if rng.chance(1, 3) else []
-                ops.append(["R", th, rng.choice("IVBE"), t, t + rng.below(20), tyno, rng.choice(["mk", "rm", "foo"]), ",".join(vals) or "-"] + fr)
+                ops.append(["R", th, rng.choice("IVBE"), t, t + rng.below(20), tyno, rng.choice(["mk", "rm", "foo", "~"]), ",".join(vals) or "-"] + fr)
             elif r < 80:
                 p = rng.below(nproc)
                 ops.append(["C", p, "ctr%d" % counters])
@@ -309,6 +309,11 @@ def _id(v):
     return "(%d, 0)" % int(s)
 
 
+def _e(x):
+    """the harness's spelling of the empty string"""
+    return "" if x == "~" else x
+
+
 class Intern:
     def __init__(self):
         self.d = {}
@@ -321,7 +326,10 @@ class Intern:
 
 def _coq_case(ops, prof):
     I = Intern()
-    S = Intern()          # string contents
+    _S = Intern()         # string contents
+
+    def S(x):
+        return _S(_e(x) if isinstance(x, str) else x)
     procs, threads, libs, maps = [], [], [], {}
     lpaths = []          # the identity of a library in the content ids is its path (names may repeat)
     samples, mstacks, visible, selected, counters = [], [], [], [], []
@@ -397,7 +405,7 @@ def _coq_case(ops, prof):
     def expect(th, p, f):
         """content id of the frame the caller named: (function name, library, relative address, file, line, column, inline depth, native symbol)"""
         if f[0] == "l":
-            return I(("F", f[1:], None, None, None, None, None, 0, None))
+            return I(("F", _e(f[1:]), None, None, None, None, None, 0, None))
         if f[0] == "L":
             q = f[1:].split("|")
             return I(("F", q[0], None, None, None if q[1] == "-" else q[1], None if q[2] == "-" else int(q[2]), None if q[3] == "-" else int(q[3]), 0, None))
